@@ -163,7 +163,10 @@ struct Ctx {
 		OpStat& s=cur(); Viol& v=s.viol[cls]; v.count++;
 		if(v.wit.size()<3){ Witness w; w.in_hex=hex_of(g_crumb.in,g_crumb.op->in_size); w.in_txt=decode_fields(g_crumb.op->fmt,g_crumb.in,g_crumb.op->in_size); w.got=got; w.want=want; v.wit.push_back(w);}
 	}
-	template<class A,class B> void fail(const std::string& cls,const A& got,const B& want){ fail(cls,show(got),show(want)); }
+	// values are only formatted for the first three witnesses of a class (a flooding defect stays cheap)
+	template<class A,class B> void fail(const std::string& cls,const A& got,const B& want){
+		if(cfg().san_only) return; OpStat& s=cur(); auto it=s.viol.find(cls); if(it!=s.viol.end() && it->second.wit.size()>=3){ it->second.count++; return; }
+		fail(cls,std::string(show(got)),std::string(show(want))); }
 	void cls(const char* name){ cur().classes[name]++; }
 	void ratio(const char* name,double r){ if(!(r==r)) return; if(r>1e300) r=1e300; double& m=cur().ratios[name]; if(r>m) m=r; }
 };
